@@ -197,10 +197,21 @@ def check_fva_formulation(ctx, rule: str) -> None:
     step = prog.func("cobra.flux_analysis.variability", "_fva_step")
     problems: Dict[str, str] = {}
     n = 0
-    for direction in ("max", "min"):
+    base_objective, base_ranges = dict(OBJECTIVE), dict(RANGES)
+    for single, direction in ((False, "max"), (False, "min"), (True, "max"), (True, "min")):
+        # `single`: the objective is one reaction with a coefficient other than one - the optimum is coefficient x flux,
+        # and the end of that reaction's range on the objective's side is optimum / coefficient
+        OBJECTIVE.clear()
+        OBJECTIVE.update({"R_b": 2.0} if single else base_objective)
+        RANGES.clear()
+        RANGES.update(base_ranges)
+        if single:
+            RANGES["R_b"] = (0.0, OPT / 2.0) if direction == "max" else (OPT / 2.0, 9.25)
         for frac in (1.0, 0.4, 0.0):
             for pf in (None, 1.125):
                 for req in (None, ["R_c", "R_a"], "objects"):
+                    if single and (frac == 0.0 or req == ["R_c", "R_a"]):
+                        continue
                     model = _model(direction)
                     oracle: _Oracle = model.script
                     it = Interp(prog, NATIVE, FOLLOW, STUBS, globals_={"Zero": Lin()})
@@ -213,7 +224,7 @@ def check_fva_formulation(ctx, rule: str) -> None:
                         ids = list(req)
                     else:
                         ids = [r.id for r in model.reactions]
-                    what = f"flux_variability_analysis({direction} problem, fraction_of_optimum={frac:g}, pfba_factor={pf}, reaction_list={'None' if req is None else 'ids' if req != 'objects' else 'objects'})"
+                    what = f"flux_variability_analysis({direction} problem{', objective 2*R_b' if single else ''}, fraction_of_optimum={frac:g}, pfba_factor={pf}, reaction_list={'None' if req is None else 'ids' if req != 'objects' else 'objects'})"
                     try:
                         out = _run(what, lambda: it.call(fn, [model], kwargs))
                     except EvalRaise as exc:
@@ -259,7 +270,9 @@ def check_fva_formulation(ctx, rule: str) -> None:
                         problems.setdefault("objective", f"{what}: a problem with objective {others[0][2]} {Lin(f.objective_terms)} is solved; every FVA step must optimise the flux of exactly one reaction (coefficients of the previous reaction reset)")
                     for rid in ids:
                         for d, col in (("min", "minimum"), ("max", "maximum")):
-                            if (rid, d) not in seen:
+                            if (rid, d) not in seen and not (single and rid == "R_b" and d == direction):
+                                # (the end of the objective reaction's range on the objective's side may be taken from
+                                # the optimum; the table clause decides whether it was taken correctly)
                                 problems.setdefault("objective", f"{what}: the flux of {rid} is never {d}imised")
                     if list(out.index) != ids or set(out.cols) != {"minimum", "maximum"}:
                         problems.setdefault("table", f"{what}: the table has rows {list(out.index)} and columns {list(out.cols)}, expected rows {ids}")
@@ -273,6 +286,46 @@ def check_fva_formulation(ctx, rule: str) -> None:
                         problems.setdefault("objective", f"{what}: reactions outside the request are optimised: {extra}")
                     if model._stack or model.solver.constraints.items or model.solver.objective.name != "original_objective" or model.solver.objective.direction != direction:
                         problems.setdefault("restore", f"{what}: the model is left modified (objective {model.solver.objective.name}, direction {model.solver.objective.direction}, {len(model.solver.constraints.items)} constraints)")
+    OBJECTIVE.clear()
+    OBJECTIVE.update(base_objective)
+    RANGES.clear()
+    RANGES.update(base_ranges)
+    # the loopless option: the value of every step comes from the per-reaction loop removal (a stand-in that records
+    # its calls and answers with a marked value), whatever the shape of the network - with more metabolites than
+    # internal reactions, and with fewer
+    for n_mets in (6, 2):
+        for req in (None, ["R_c", "R_a"]):
+            model = _model("max")
+            model.metabolites = [object() for _ in range(n_mets)]
+            calls: List[Tuple[str, str]] = []
+
+            def _loop_iter(it_, ev, c, a, k, _m=model, _calls=calls):
+                rxn = a[1] if len(a) > 1 else k.get("reaction")
+                d = _m.solver.objective.direction
+                _calls.append((rxn.id, d))
+                return 1000.0 + (RANGES[rxn.id][0] if d == "min" else RANGES[rxn.id][1])
+
+            stubs = dict(STUBS)
+            stubs["cobra.flux_analysis.loopless.loopless_fva_iter"] = _loop_iter
+            stubs["cobra.flux_analysis.variability.loopless_fva_iter"] = _loop_iter
+            it = Interp(prog, NATIVE, FOLLOW, stubs, globals_={"Zero": Lin()})
+            kwargs = {"fraction_of_optimum": 1.0, "processes": 1, "loopless": True}
+            ids = [r.id for r in model.reactions] if req is None else list(req)
+            if req is not None:
+                kwargs["reaction_list"] = list(req)
+            what = f"flux_variability_analysis(loopless=True, reaction_list={'None' if req is None else 'ids'}) on a model with {len(model.reactions)} internal reactions and {n_mets} metabolites"
+            try:
+                out = _run(what, lambda: it.call(fn, [model], kwargs))
+            except EvalRaise as exc:
+                problems.setdefault("raise", f"{what} raises {exc.exc_type}")
+                continue
+            n += 1
+            for rid in ids:
+                row = out.row(rid) if isinstance(out, Frame) and rid in list(out.index) else None
+                want_row = (1000.0 + RANGES[rid][0], 1000.0 + RANGES[rid][1])
+                if row is None or (row["minimum"], row["maximum"]) != want_row:
+                    got_row = None if row is None else (row["minimum"], row["maximum"])
+                    problems.setdefault("table", f"{what}: the row of {rid} is {got_row}; the loop removal for that reaction answers {want_row}" + ("" if (rid, "min") in calls and (rid, "max") in calls else f" - it was asked for {sorted(set(calls))} only: the plain LP values are handed out as loopless"))
     # two analyses in one process, on two models that share their reaction identifiers: every step of the second one
     # has to act on the second model's own variables (nothing about a model is remembered from one call to the next)
     it = Interp(prog, NATIVE, FOLLOW, STUBS, globals_={"Zero": Lin()})
